@@ -53,7 +53,7 @@ ASSUMPTIONS = [
 ]
 RULE = ("corpus; boundary schemas (samples in {1,7,8,9,15,16,17,...}, class counts {1,2,3,255,256,257,300}, all-missing and never-missing "
         "features, every storage type) then random schemas of 1..12 features over the 12 feature types, dims <= 3x3x2 (a few 4x4 images for "
-        "the gradient generator), samples 1..200, target of any type or absent, generator stacks (identity x4, product with one or two "
+        "the gradient generator), samples 1..200, 2500 (quick) / 12000 (thorough) random cases, target of any type or absent, generator stacks (identity x4, product with one or two "
         "lists, gradient, feature subsets with repeats) and histories of 4..14 ops (flatten/select/targets/iterators with index lists: "
         "all, reversed, repeats, N-1, N, -1, empty; descriptors; drop/undrop/shuffle/unshuffle/shuffled; invalid feature indices; wrong "
         "overloads), 1..4 threads (quick) / 1..16 (thorough). A case is non-trivial when the schema uses >= 2 storage types, has >= 1 missing "
